@@ -65,6 +65,12 @@ class ElectrumWallet(Key):
             return to_bytes_32(self._secret_exponent)
         return self.master_public_key()
 
+    def as_text(self) -> str:
+        """
+        Return the "E:" text form that the electrum_prv / electrum_pub parsers accept.
+        """
+        return "E:%s" % b2h(self.serialize())
+
     def secret_exponent(self) -> int | None:
         if self._secret_exponent is None and self._initial_key:
             self._secret_exponent = initial_key_to_master_key(b2h(self._initial_key))  # type: ignore[arg-type]
